@@ -53,7 +53,10 @@ var rules = []rule{
 
 const routerShim = `package router
 
-import "context"
+import (
+	"context"
+	"crypto/tls"
+)
 
 // Export shim added by simgen (exists only in the simulator build).
 
@@ -74,6 +77,11 @@ func (r *router) VFatal() (string, error, bool) {
 }
 
 func (r *router) VCtxDone() bool { return r.ctx.Err() != nil }
+
+// VMakeTlsConfig exposes the TLS option handling used for listeners and upstreams.
+func VMakeTlsConfig(cfg *TlsConfig, requireCert bool) (*tls.Config, error) {
+	return makeTlsConfig(cfg, requireCert)
+}
 `
 
 func main() {
